@@ -382,7 +382,9 @@ impl Ord for Iri {
 
 impl Hash for Iri {
 	fn hash<H: hash::Hasher>(&self, state: &mut H) {
-		self.parts().hash(state)
+		// Hash like the reference view: this type implements `Borrow` for the
+		// reference type, so both must hash identically.
+		self.as_iri_ref().hash(state)
 	}
 }
 
